@@ -335,34 +335,50 @@ class HttpClientDriver:
 
 
 class HttpServerDriver:
+    """BasicHttpServer with a scripted request handler: case["handler"] maps a request (canonical
+    form) to "raise" / "none"; every other request gets a 200 response."""
     name = "httpserver"
 
     def __init__(self, case):
         from pyatv.support.http import BasicHttpServer
         self.events = []
+        self.script = case.get("handler") or {}
         outer = self
 
         class T(FakeTransport):
             def write(self, data):
                 super().write(data)
                 m = re.match(rb"[^ ]+ (\d+) ", data)
-                code = int(m.group(1)) if m else -1
-                if code != 200:
-                    outer.events.append(["status", code])
+                outer.events.append(["status", int(m.group(1)) if m else -1])
 
         self.srv = BasicHttpServer(self)
         self.srv.connection_made(T())
 
     def handle_request(self, request):
         from pyatv.support.http import HttpResponse
-        self.events.append(["req", canon_http(request, "req")])
+        canon = canon_http(request, "req")
+        self.events.append(["req", canon])
+        what = self.script.get(json.dumps(canon))
+        if what == "raise":
+            raise RuntimeError("handler failed")
+        if what == "none":
+            return None
         return HttpResponse("HTTP", "1.1", 200, "OK", {}, b"")
 
     def feed(self, chunk):
         self.srv.data_received(chunk)
 
     def obs(self):
-        return {"msgs": list(self.events), "rest": self.srv._request_buffer.hex()}
+        # ["req", request, status written for it] / ["status", code] for an answer without a request
+        out = []
+        for ev in self.events:
+            if ev[0] == "req":
+                out.append(["req", ev[1], -1])
+            elif out and out[-1][0] == "req" and out[-1][2] == -1:
+                out[-1][2] = ev[1]
+            else:
+                out.append(["status", ev[1]])
+        return {"msgs": out, "rest": self.srv._request_buffer.hex()}
 
 
 DRIVERS = {"mrp": MrpDriver, "companion": CompanionDriver, "hap": HapDriver, "datastream": DataStreamDriver,
@@ -723,15 +739,17 @@ def coq_case(case, obs, declog, seg):
             cblist(case["bad_first"]), s, seg, "[" + ";".join(chttp(m) for m in obs["msgs"]) + "]", end))
     if conn == "httpserver":
         out = []
-        for kind, v in obs["msgs"]:
-            if kind == "req":
-                out.append("(OReq %s)" % chttp(v))
-            elif v == 500:
+        for ev in obs["msgs"]:
+            if ev[0] == "req":
+                out.append("(OReq %s %s)" % (chttp(ev[1]), common.cN(ev[2] if ev[2] >= 0 else 0)))
+            elif ev[1] == 500:
                 out.append("O500")
             else:
-                out.append("(OReq ([]%N, [], []%N))")   # an answer the model does not know: forces a mismatch
-        return "httpd", ("{| hd_bad_first := %s; hd_stream := %s; hd_segs := %s; hd_out := %s; hd_rest := %s |}" % (
-            cblist(case["bad_first"]), s, seg, "[" + ";".join(out) + "]", H(obs["rest"])))
+                out.append("(OReq ([]%N, [], []%N) 0%N)")   # an answer the model does not know: forces a mismatch
+        tab = "[" + ";".join("(%s, %s)" % (chttp(json.loads(k)), {"raise": "HRaises", "none": "HNothing"}[v])
+                             for k, v in sorted((case.get("handler") or {}).items())) + "]"
+        return "httpd", ("{| hd_bad_first := %s; hd_handler := %s; hd_stream := %s; hd_segs := %s; hd_out := %s; hd_rest := %s |}" % (
+            cblist(case["bad_first"]), tab, s, seg, "[" + ";".join(out) + "]", H(obs["rest"])))
     if conn == "event-loop":
         return "ev", ("{| ec_bad_first := %s; ec_stream := %s; ec_segs := %s; ec_msgs := %s; ec_rest := %s |}" % (
             cblist(case["bad_first"]), s, seg, "[" + ";".join(chttp(m) for m in obs["msgs"]) + "]", H(obs["rest"])))
@@ -838,7 +856,7 @@ def gen_cases(ctx):
     cases.append(ds_case(["sync", ds_frame(rng, "rply", 5, size_override=31)], valid=False, what="header.size = 31"))
 
     # --- HTTP: plain client, encrypted client, server, event channel
-    def http_case(conn, kind, picks, enc=False, blocks=None, valid=True, what="", raw=None, bad_first=()):
+    def http_case(conn, kind, picks, enc=False, blocks=None, valid=True, what="", raw=None, bad_first=(), handler_plan=None):
         msgs = []
         firsts = []
         for i, pk in enumerate(picks):
@@ -860,11 +878,25 @@ def gen_cases(ctx):
         c["bad_first"] = [b.encode() for b in bad_first]
         c["expect"] = len(msgs)
         c["frames"] = list(msgs)
+        if conn == "httpserver" and valid:
+            # the request handler's behaviour per request is part of the script: a handler that raises
+            # (500) or returns None (404) is still a valid exchange and must not cost the requests behind it
+            from pyatv.support.http import parse_request
+            script = {}
+            for i, m in enumerate(msgs):
+                what = handler_plan[i % len(handler_plan)] if handler_plan else rng.choice(["ok", "ok", "raise", "raise", "none"])
+                if what != "ok":
+                    script[json.dumps(canon_http(parse_request(m)[0], "req"))] = what
+            c["handler"] = script
+            c["what"] += " handler %s" % (sorted(set(script.values())) or "ok")
         return c
 
     pick_sets = [[0], [1, 2], [3, 0, 4], [5, 6], [7, 8, 9], [2, 2, 2], [4, 3]]
     for _ in range(3 if not T else 12):
         pick_sets.append([rng.randrange(10) for _ in range(rng.randrange(1, 4))])
+    cases.append(http_case("httpserver", "req", [1, 2, 3], handler_plan=["raise", "ok", "none"]))
+    cases.append(http_case("httpserver", "req", [2, 4, 1], handler_plan=["ok", "raise", "raise"]))
+    cases.append(http_case("httpserver", "req", [3, 1], handler_plan=["ok"]))
     for picks in pick_sets:
         cases.append(http_case("http", "resp", picks))
         cases.append(http_case("httpserver", "req", picks))
@@ -1088,6 +1120,8 @@ def replay_of(case, cuts):
          "stream": case["stream"].hex() if len(case["stream"]) <= 6000 else None,
          "probe": (case.get("probe") or b"").hex(), "cuts": cuts, "what": case["what"],
          "expect": case.get("expect") if case.get("valid") else None}
+    if case.get("handler"):
+        r["handler"] = case["handler"]
     if r["stream"] is None:
         r["stream_z"] = __import__("base64").b64encode(__import__("zlib").compress(case["stream"])).decode()
     return r
@@ -1100,7 +1134,7 @@ def case_of_replay(r):
         stream = __import__("zlib").decompress(__import__("base64").b64decode(r["stream_z"]))
     return {"conn": r["conn"], "enc": r["enc"], "okey": bytes.fromhex(r["okey"]), "ikey": bytes.fromhex(r["ikey"]),
             "stream": stream, "probe": bytes.fromhex(r.get("probe", "")), "what": r.get("what", ""), "valid": True,
-            "expect": r.get("expect")}
+            "expect": r.get("expect"), "handler": r.get("handler")}
 
 
 def judge_replay(case, cuts):
